@@ -142,6 +142,26 @@ def b_grains(ctx):
                     if str(b.name).strip() != a.name or int(b.npks) != a.npks:
                         fails.append(dict(name="text grain file: name or npks not preserved / order changed", grain=i,
                                           wrote=[a.name, a.npks], read=[str(b.name), str(b.npks)]))
+            # text files: grains without a translation mixed with translated ones (written without the translation line, read back as None)
+            if ng > 1:
+                mixed = [gm.grain(g.ubi.copy(), translation=(None if (i % 2 or i % 5 == 3) else g.translation.copy())) for i, g in enumerate(grains)]
+                for g, h in zip(grains, mixed):
+                    h.name, h.npks, h.nuniq = g.name, g.npks, g.nuniq
+                fm = os.path.join(tmp, "gmixed.map")
+                gm.write_grain_file(fm, mixed)
+                rm = gm.read_grain_file(fm)
+                ev += 1
+                for i, (a, b) in enumerate(zip(mixed, rm)):
+                    if a.translation is None:
+                        if b.translation is not None:
+                            fails.append(dict(name="text grain file: a grain written without translation reads back with one", grain=i, n=ng,
+                                              read=[float(x) for x in b.translation]))
+                            break
+                    elif b.translation is None or not np.array_equal(np.array(b.translation), np.array([sig(x, 6) for x in a.translation])):
+                        fails.append(dict(name="text grain file: translation not preserved in a list mixing grains with and without translation", grain=i, n=ng))
+                        break
+                if len(rm) != len(mixed):
+                    fails.append(dict(name="text grain file: number of grains changed (mixed translations)", wrote=len(mixed), read=len(rm)))
             hn = os.path.join(tmp, "g.h5")
             if os.path.exists(hn):
                 os.remove(hn)
